@@ -8,6 +8,7 @@ Mutations that provably leave hash input, signature integers and key unchanged a
 import copy
 
 from mc.core import Res
+from mc import adapt as A
 from mc import keys as K
 from mc import sigscen as S
 from refpgp import sig as rsig, wire, keys as rkeys
@@ -196,7 +197,7 @@ class Prop(object):
         import pgpy
         try:
             s = pgpy.PGPSignature.from_blob(pk) if isinstance(pk, (bytes, bytearray)) else pk
-            if s._signature is None:
+            if A.sig_packet(s) is None:
                 return 'import-error'
         except Exception:
             return 'import-error'
@@ -327,7 +328,7 @@ class Prop(object):
                 yield 'doc-empty', 'different', b'', None
                 yield 'doc-crlf', 'different', bytes(data).replace(b'\r\n', b'\n'), None
         elif kind == 'uid':
-            parent = subj._parent
+            parent = A.owner(subj)
             if subj.is_uid:
                 s = subj.userid
                 for nm, txt in (('uid-change-char', s[:3] + ('X' if s[3] != 'X' else 'Y') + s[4:]), ('uid-append', s + ' '), ('uid-drop-last', s[:-1]),
@@ -335,13 +336,13 @@ class Prop(object):
                     if txt == s:
                         continue
                     u = pgpy.PGPUID.new(txt)
-                    u._parent = parent
+                    A.attach(u, parent)
                     yield nm, 'different', u, parent
                 # the same user id hanging on another key
                 okey = S.signer_cert('ed25519a')[0] if parent.fingerprint != S.signer_cert('ed25519a')[0].fingerprint else S.target_cert()[0]
                 opub = okey.pubkey
                 u = pgpy.PGPUID.new(s)
-                u._parent = opub
+                A.attach(u, opub)
                 yield 'uid-on-other-key', 'different', u, opub
                 # the photo id of the same key instead of the user id
                 if parent.userattributes:
@@ -350,7 +351,7 @@ class Prop(object):
                 img = bytes(subj.image)
                 for nm, im in (('uat-flip', img[:20] + bytes([img[20] ^ 1]) + img[21:]), ('uat-append', img + b'\x00')):
                     u = pgpy.PGPUID.new(bytearray(im))
-                    u._parent = parent
+                    A.attach(u, parent)
                     yield nm, 'different', u, parent
                 yield 'uat->uid-of-same-key', 'different', parent.userids[0], parent
         elif kind == 'key':
@@ -639,10 +640,10 @@ class Prop(object):
         tpub = tkey.pubkey
         octets = b'\x06\x64twin!'       # valid as a user id string and as one private-use attribute subpacket
         uid = pgpy.PGPUID.new(octets.decode('latin-1'))
-        uid._parent = tpub
+        A.attach(uid, tpub)
         ua = pgpy.PGPUID()
         ua |= Packet(bytearray(wire.packet(17, octets)))
-        ua._parent = tpub
+        A.attach(ua, tpub)
         tags = {'mut': 'subject', 'grp': 'type-confusion'}
         for base, twin, nm in ((uid, ua, 'uid->attribute-with-same-octets'), (ua, uid, 'attribute->uid-with-same-octets')):
             sig = key.certify(base, level=SignatureType.Generic_Cert, hash=HashAlgorithm.SHA256, created=K.dt(S.SIG_T))
